@@ -27,6 +27,10 @@ pub struct FamRun {
 }
 
 pub fn run_family(name: &str, progs: &[Program], cfg: &Cfg) -> FamRun {
+	run_family_with(name, progs, cfg, None)
+}
+
+pub fn run_family_with(name: &str, progs: &[Program], cfg: &Cfg, hook: Option<&explore::StateHook>) -> FamRun {
 	let next = AtomicUsize::new(0);
 	let acc = Mutex::new(FamRun { name: name.into(), programs: progs.len(), stats: Stats::default(), found: vec![], machinery: vec![], contended_programs: 0, capped_programs: 0, sample: None });
 	std::thread::scope(|s| {
@@ -36,7 +40,7 @@ pub fn run_family(name: &str, progs: &[Program], cfg: &Cfg) -> FamRun {
 				if i >= progs.len() {
 					break;
 				}
-				let o = explore::explore(&progs[i], cfg);
+				let o = explore::explore_with(&progs[i], cfg, hook);
 				let mut a = acc.lock().unwrap();
 				a.stats.add(&o.stats);
 				if o.stats.blocked_states > 0 {
@@ -162,5 +166,88 @@ pub fn check_core(prop: &str, tier: &str) -> ! {
 	common_assumptions(&mut rep);
 	core_families(&mut rep, tier == "thorough");
 	rep.set("rule", "explicit-state search: every interleaving (at raw-lock-operation and mid-section yield granularity) of every program of each listed family, states de-duplicated on a canonical fingerprint; each transition is one real execution step of happylock under the controlled scheduler");
+	rep.finish()
+}
+
+/// C09 state invariant: a thread that is blocked in a raw acquisition during an acquisition through a
+/// retrying collection holds nothing (an owned unit counts as one lock).
+pub fn c09_hook(g: &crate::rt::Inner, _targets: &[crate::spec::Target<'_>]) -> Vec<crate::rt::Violation> {
+	use crate::rt::{Act, Pending, Status};
+	let mut out = vec![];
+	for t in 0..g.nthreads {
+		let th = &g.threads[t];
+		if th.status != Status::Parked || !th.ctx.retrying {
+			continue;
+		}
+		if !matches!(th.ctx.kind, crate::rt::CallKind::Acquire | crate::rt::CallKind::TryAcquire) {
+			continue;
+		}
+		if let Some(Pending::Raw(op)) = &th.pending {
+			if op.act == Act::Lock && !g.grantable(t, *op) {
+				let unit = g.lock_unit[op.lock as usize];
+				let held: Vec<(u32, crate::rt::Mode)> = g.held(t).into_iter().filter(|(l, _)| unit == 0 || g.lock_unit[*l as usize] != unit).collect();
+				if !held.is_empty() {
+					out.push(crate::rt::Violation { prop: "C09", key: format!("waits-while-holding|{}", crate::rt::what_key(&th.ctx.what)), detail: format!("T{} waits for L{} during `{}` while holding {:?}", t, op.lock, th.ctx.what, held) });
+				}
+			}
+		}
+	}
+	out
+}
+
+pub fn check_c09(tier: &str) -> ! {
+	let thorough = tier == "thorough";
+	let mut rep = Report::new("C09", tier, "model_checking");
+	common_assumptions(&mut rep);
+	rep.assumptions.push("an owned collection nested inside a retrying collection is one unit: waiting for its second leaf while holding its first is not counted (its leaves are reachable only through it, in one fixed order)".into());
+	let progs = fam::fam_c09(thorough);
+	let cfg = Cfg { retry_rounds: if thorough { 3 } else { 2 }, horizon: 200, verdict_props: vec!["C09".into(), "C01".into()], ..Cfg::default() };
+	let t = std::time::Instant::now();
+	let fr = run_family_with("R", &progs, &cfg, Some(&c09_hook));
+	eprintln!("  family R programs={} states={} transitions={} execs={} contended={} completions={} found={} [{:.1}s]", fr.programs, fr.stats.states, fr.stats.transitions, fr.stats.executions, fr.contended_programs, fr.stats.completions, fr.found.len(), t.elapsed().as_secs_f64());
+	absorb(&mut rep, &progs, &cfg, fr);
+	// a deadlock or an incomplete acquisition in these families is this property's "still completes" clause
+	let moved: Vec<Viol> = rep.xrefs.iter().filter(|v| v.prop == "C01" && v.key.starts_with("deadlock|")).cloned().collect();
+	rep.xrefs.retain(|v| !(v.prop == "C01" && v.key.starts_with("deadlock|")));
+	for mut v in moved {
+		v.prop = "C09".into();
+		v.key = format!("never-completes|{}", v.key);
+		rep.violation(v);
+	}
+	rep.set("rule", "every interleaving (raw-operation granularity) of a retrying acquisition (sizes 1..3/4, read and write, every arrangement, guard and scoped flavours, nested/owned/poisonable/mutex members) against 1-2 threads holding or acquiring overlapping leaves singly, through Boxed/Ref, through another Retrying collection in another order, or through an owned unit; invariant evaluated in every state: a thread blocked inside a retrying acquisition holds nothing; every maximal execution ends with all threads finished (after at most retry_rounds adversarial restarts the execution is completed run-to-block within the horizon)");
+	rep.finish()
+}
+
+pub fn check_c11(tier: &str) -> ! {
+	let thorough = tier == "thorough";
+	let mut rep = Report::new("C11", tier, "model_checking");
+	common_assumptions(&mut rep);
+	let cfg = Cfg { retry_rounds: 2, verdict_props: vec!["C11".into(), "C01".into(), "C06".into()], ..Cfg::default() };
+	let body = Body::TOUCH;
+	let mut fams: Vec<(&str, Vec<Program>)> = vec![
+		("A2+panic", fam::with_panics(&fam::fam_a(2, true, body))),
+		("B+panic", fam::with_panics(&fam::fam_b(body, &[(true, true), (true, false)]))),
+		("N+panic", fam::with_panics(&fam::fam_pairs_of(&fam::nested_specs(), "N", body, &[Flavour::Guard, Flavour::ScopedLent, Flavour::ScopedOwned]))),
+		("X+panic", fam::with_panics(&fam::fam_pairs_of(&fam::mixed_specs(), "X", body, &[Flavour::Guard, Flavour::ScopedTryOwned]))),
+		("D+panic", fam::with_panics(&fam::fam_d(body))),
+	];
+	if thorough {
+		fams.push(("A3+panic", fam::with_panics(&fam::fam_a(3, true, body))));
+		fams.push(("C+panic", fam::with_panics(&fam::fam_c(body, false))));
+		fams.push(("N-flavours+panic", fam::with_panics(&fam::fam_pairs_of(&fam::nested_specs(), "Nf", body, &FLAVOURS))));
+	} else {
+		fams.push(("C+panic", fam::with_panics(&fam::fam_c(body, true)).into_iter().step_by(3).collect()));
+	}
+	for (name, progs) in fams {
+		run_into(&mut rep, name, progs, &cfg);
+	}
+	let moved: Vec<Viol> = rep.xrefs.iter().filter(|v| (v.prop == "C01" && v.key.starts_with("deadlock|")) || (v.prop == "C06" && v.key.starts_with("key-lost"))).cloned().collect();
+	rep.xrefs.retain(|v| !((v.prop == "C01" && v.key.starts_with("deadlock|")) || (v.prop == "C06" && v.key.starts_with("key-lost"))));
+	for mut v in moved {
+		v.key = format!("after-user-panic:{}:{}", v.prop, v.key);
+		v.prop = "C11".into();
+		rep.violation(v);
+	}
+	rep.set("rule", "the concurrent families re-instantiated with a panic injected at critical section j of thread i for every (i, j), every flavour (guard alive / scoped with lent key / scoped with owned key / scoped_try), kinds, modes; all interleavings at raw-operation granularity (the unwinding thread is preemptible at every release it performs). Oracle: the injected panic reaches the caller's catch_unwind; afterwards the panicking thread holds nothing, every release was legal (audit), its key is obtainable (or the lent key still works for the next acquisition), no deadlock: all other threads finish");
 	rep.finish()
 }
